@@ -572,13 +572,12 @@ fn run_script(r: &mut Report, lab: &Lab, s: &Script, id: &str, rng: &mut Rng, re
         End::ServerDrop => want.push(HEv::Returned),
         End::AbruptDisconnect => want.push(if s.nonblocking { HEv::GaveUp } else { HEv::Err("ReadError".into()) }),
     }
-    // after an abrupt disconnect the handler may equally notice it while writing an echo
-    if s.end == End::AbruptDisconnect && !s.nonblocking {
-        if let Some(HEv::Err(e)) = log.last() {
-            if e == "send failed" || e == "WriteError" {
-                let n = log.len();
-                log[n - 1] = HEv::Err("ReadError".into());
-            }
+    // after an abrupt disconnect the property only says that no message is invented: WHICH error the handler gets (read
+    // error, write error while echoing, connection closed) is not specified, and a polling handler may also simply see nothing
+    if s.end == End::AbruptDisconnect {
+        if let Some(HEv::Err(_)) = log.last() {
+            let n = log.len();
+            log[n - 1] = if s.nonblocking { HEv::GaveUp } else { HEv::Err("ReadError".into()) };
         }
     }
     if log != want {
